@@ -1,7 +1,6 @@
 package checks
 
 import (
-	"encoding/json"
 	"fmt"
 
 	"github.com/dtn7/dtn7-go/verif/ev"
@@ -10,7 +9,7 @@ import (
 )
 
 func init() {
-	All["C05"] = Check{Level: "model_checking", Run: runC05, Replay: func(kind string, c json.RawMessage) (string, bool) { return nhReplayCmd(c) }}
+	All["C05"] = Check{Level: "model_checking", Run: runC05, Replay: nhReplayAny}
 	nhChecks["c05"] = c05Def
 }
 
@@ -159,6 +158,22 @@ func runC05(r *ev.Run, thorough bool) int {
 	}
 	r.Add("sends_observed", int64(st.SendsSeen))
 	r.Add("distinct_send_sequences", int64(st.Outcomes))
+	// E3: several transmissions of one bundle fail at the same moment (Core.forward's per-peer goroutines)
+	execs := 0
+	concAlgos := []string{"epidemic"}
+	bound, sbudget := 2, 1500
+	if thorough {
+		concAlgos = []string{"epidemic", "prophet", "sensor-mule", "dtlsr"}
+		bound, sbudget = 3, 60000
+	}
+	for _, a := range concAlgos {
+		execs += nhSchedRun(r, "C05", nhConcArg{Algo: a, Mode: "failures", Peers: 2}, bound, sbudget)
+		if thorough {
+			execs += nhSchedRun(r, "C05", nhConcArg{Algo: a, Mode: "failures", Peers: 3}, 2, sbudget)
+		}
+	}
+	st.Transitions += execs
+	st.Validated += execs
 	if st.SendsSeen == 0 {
 		r.Violation("C05/vacuous", "none", "no bundle was ever sent", nil)
 	}
